@@ -297,7 +297,66 @@ WHITESPACE = { "a" ~ "b" | wsx }
                         t = "".join((ch if j in pos else "") + (base[j] if j < len(base) else "") for j in range(len(base) + 1))
                         extra.add(t)
         gs[-1]["inputs"] = sorted(extra)
+    # Unicode property built-ins (C01 quantifies over them): sequences / repetitions / negations / choices /
+    # atomic and compound rules / the implicit skip / the stack over ~35 property rules.  The model answers
+    # `charBy name` from pest's own tables restricted to UNI_ALPHABET (tools/uni_table → VERIF_UNI_TABLE), so
+    # every input of this grammar is drawn from that alphabet (the literals below and every character
+    # `inputs_for` adds to random inputs are in it too).
+    add("s_uniprops", r'''
+u0 = { ALPHABETIC+ ~ DECIMAL_NUMBER* }
+u1 = { UPPERCASE ~ LOWERCASE* }
+u2 = { (!WHITE_SPACE ~ ANY)+ }
+u3 = { HAN | HIRAGANA | KATAKANA | HANGUL }
+u4 = { (LETTER ~ NONSPACING_MARK*)+ ~ EOI }
+u5 = { EMOJI | MATH | CURRENCY_SYMBOL | PUNCTUATION }
+u6 = @{ XID_START ~ XID_CONTINUE* }
+u7 = { !(CYRILLIC | GREEK) ~ ALPHABETIC ~ "1"? }
+u8 = { (LATIN ~ "é"?){1,3} }
+u9 = ${ (UPPERCASE_LETTER | TITLECASE_LETTER) ~ (LOWERCASE_LETTER | "a")* ~ &(SEPARATOR | EOI) }
+u10 = { (NUMBER | "É" | "中")* ~ !ASCII_DIGIT ~ ANY? }
+u11 = { PUSH(ALPHABETIC+) ~ MATH ~ POP }
+u12 = { (JOIN_CONTROL | FORMAT | CONTROL | UNASSIGNED | PRIVATE_USE)+ }
+u13 = { "\u{301}" ~ GRAPHEME_EXTEND | CASED ~ CASE_IGNORABLE* }
+u14 = !{ u6 ~ u3* }
+WHITESPACE = _{ SPACE_SEPARATOR }
+''')
+    urnd = random.Random(7)
+    sub = ["a", "A", "1", " ", "é", "É", "ß", "Ω", "ж", "中", "あ", "\u0301", "\u00a0", "\u200d", "\U0001F600", "+", "ǅ", "٣"]
+    uin = list(UNI_ALPHABET) + [x + y for x in sub for y in sub]
+    uin += ["Éa b", "Ωω", "中あア가", "a\u0301b", "a\u0301\u0301", "x\u00a0z", "a\u3000b1", "ǅa", "ǅa\u2028", "Aa\u2029b", "€", "٣1", "a\u200db",
+            "\u200d\u200e\x00", "\u0378\ue000\U0010ffff", "a+a", "ab+ab", "ab+a", "é+é", "中1", "ж1", "ω1", "z1", "ÉÉ中1x", "²Ⅰ٣", "\u0301\u20dd",
+            "\u0301\u0903", "A.^ʰ", "aé", "aéaéaéaé", "가ア", "a 1", "a\u00a01", "Aa\u00a0", "क\u0903", "ก", "א", "ا", "ª²", "««", "×", "‿", "(_)"]
+    for _ in range(160):
+        uin.append("".join(urnd.choice(UNI_ALPHABET) for _ in range(urnd.randint(2, 6))))
+    assert all(c in UNI_ALPHABET for x in uin for c in x), "s_uniprops: input outside UNI_ALPHABET"
+    gs[-1]["inputs"] = sorted(set(uin))
     return gs
+
+
+# The test alphabet of harness/tools/src/bin/uni_table.rs (checked against the tool's `#alphabet` line).
+UNI_ALPHABET = ("abfzABFZ0179 \t\n\r_-+$()\".#~^/x\x00\x7f" "éÉßª²\u00a0«×ǅ" "Ωωжאا٣कก中あア가Ⅰʰ"
+                "\u0301\u0903\u20dd\u200d\u200e\u2028\u2029\u3000€‿\U0001F600\ue000\u0378\U0010ffff")
+
+
+def ensure_uni_table(path=None):
+    """Writes pest's Unicode property tables restricted to UNI_ALPHABET (tools/uni_table) to `path` (default
+    build/uni_table.tsv) and exports VERIF_UNI_TABLE (unless already set), so that every model_driver started by
+    this process answers `charBy name` exactly as pest does on the alphabet.  Returns the path."""
+    exe = os.path.join(TARGET, "release", "uni_table")
+    if not os.path.exists(exe):
+        ensure_tools()
+    out = subprocess.run([exe], capture_output=True, text=True, check=True).stdout
+    first = out.split("\n", 1)[0].split("\t")
+    if first[0] != "#alphabet" or unhex(first[1]) != UNI_ALPHABET:
+        raise RuntimeError("uni_table's alphabet differs from corpus.UNI_ALPHABET")
+    path = path or os.path.join(BUILD, "uni_table.tsv")
+    os.makedirs(os.path.dirname(path), exist_ok=True)
+    if not os.path.exists(path) or open(path).read() != out:
+        tmp = f"{path}.{os.getpid()}.tmp"
+        open(tmp, "w").write(out)
+        os.replace(tmp, path)
+    os.environ.setdefault("VERIF_UNI_TABLE", path)
+    return path
 
 
 LITS = ['"a"', '"b"', '"ab"', '"ba"', '^"a"', "'a'..'b'", '"c"', '""']
@@ -392,6 +451,7 @@ def ensure_tools():
 def validate(grammars, need_pest=True, need_wf=True):
     """Adds sexp / rules / alphabet to each grammar; returns (accepted, rejected)."""
     exe = ensure_tools()
+    ensure_uni_table()   # exports VERIF_UNI_TABLE: every model_driver started from this process loads pest's Unicode tables
     inp = "".join(f"{g['gid']}\t{hexs(g['text'])}\n" for g in grammars)
     out = subprocess.run([exe], input=inp, capture_output=True, text=True, check=True).stdout
     by = {}
